@@ -102,6 +102,82 @@ theorem k_items_k_consumers (P : Par) (hP : ProvedWake P.kind P.wk) (a b : Int) 
   simp only [items, hn.2.1, hn.2.2, List.append_nil, List.count_nil] at this
   omega
 
+theorem doneVal_reachable (P : Par) (a b : Int) (s : CS) (hr : (ltsC P (P.newQ a b)).Reach s) : DoneVal s := by
+  refine LTS.inv_of_step (ltsC P (P.newQ a b)) DoneVal (fun _ d hd => nomatch hd) ?_ s hr
+  intro s1 act s2 hD h
+  simp only [ltsC] at h
+  split at h
+  · cases h
+  · exact doneVal_step P s1 s2 act hD h
+
+/-- handed out ⊎ queued = accepted, as a permutation (and hence with equal lengths) -/
+theorem conc_conservation_perm (P : Par) (a b : Int) (s : CS) (hr : (ltsC P (P.newQ a b)).Reach s) :
+    (vals s.done ++ (s.q.ctrl ++ s.q.req)).Perm s.accepted := by
+  rw [List.perm_iff_count]
+  intro y
+  have := conc_conservation P a b s hr y
+  simp only [items] at this
+  rw [List.count_append]; exact this
+
+/-- **k items, k consumers — the exact case of the property.** In every quiescent reachable state of an open queue
+    (no close so far — `closed` is never reset) in which exactly as many items have been accepted as consumers have
+    called `Pop`/`PopAnyway` (`parked + done`; nobody is woken): nobody is left parked, the queue is empty, every
+    consumer returned with an item, and the returned items are exactly the accepted ones as a multiset — so k distinct
+    accepted items are k distinct returned items. -/
+theorem k_items_k_consumers_exact (P : Par) (hP : ProvedWake P.kind P.wk) (a b : Int) (s : CS)
+    (hr : (ltsC P (P.newQ a b)).Reach s) (hq : s.woken = []) (ho : s.q.closed = false)
+    (hk : s.accepted.length = s.parked.length + s.done.length) :
+    s.parked = [] ∧ s.q.ctrl = [] ∧ s.q.req = [] ∧ (∀ d ∈ s.done, ∃ v, d.2 = .val v) ∧
+    (vals s.done).Perm s.accepted ∧ (s.accepted.Nodup → (vals s.done).Nodup) := by
+  have hD := doneVal_reachable P a b s hr ho
+  have hlen := vals_length_of_all_val s.done hD
+  have hperm := conc_conservation_perm P a b s hr
+  have hl := hperm.length_eq
+  simp only [List.length_append] at hl
+  have hpk : s.parked = [] := by
+    cases hp : s.parked with
+    | nil => rfl
+    | cons e r =>
+      have hn := q_no_stuck_waiter P hP a b s (reach_of_reachC P _ s hr) hq (by rw [hp]; simp)
+      rw [hn.2.1, hn.2.2] at hl
+      rw [hp] at hk
+      simp at hl hk
+      omega
+  rw [hpk] at hk
+  simp at hk
+  have hc : s.q.ctrl = [] := List.eq_nil_of_length_eq_zero (by omega)
+  have hrq : s.q.req = [] := List.eq_nil_of_length_eq_zero (by omega)
+  have hp2 : (vals s.done).Perm s.accepted := by
+    have := hperm; rw [hc, hrq] at this; simpa using this
+  exact ⟨hpk, hc, hrq, hD, hp2, fun hnd => (hp2.nodup_iff).2 hnd⟩
+
+/-- the general form: in every quiescent reachable state of an open queue, `#returned consumers + #queued items =
+    #accepted items`, every returned consumer carries an item, and if anybody is still parked the queue is empty — so
+    with at least as many blocked consumers as items, all items have been delivered; with more items than consumers,
+    nobody is parked. -/
+theorem items_vs_consumers (P : Par) (hP : ProvedWake P.kind P.wk) (a b : Int) (s : CS)
+    (hr : (ltsC P (P.newQ a b)).Reach s) (hq : s.woken = []) (ho : s.q.closed = false) :
+    s.done.length + (s.q.ctrl.length + s.q.req.length) = s.accepted.length ∧
+    (s.parked ≠ [] → s.q.ctrl = [] ∧ s.q.req = [] ∧ s.done.length = s.accepted.length) ∧
+    (s.parked.length + s.done.length < s.accepted.length → s.parked = []) := by
+  have hD := doneVal_reachable P a b s hr ho
+  have hlen := vals_length_of_all_val s.done hD
+  have hl := (conc_conservation_perm P a b s hr).length_eq
+  simp only [List.length_append] at hl
+  refine ⟨by omega, fun hp => ?_, fun hlt => ?_⟩
+  · have hn := q_no_stuck_waiter P hP a b s (reach_of_reachC P _ s hr) hq hp
+    rw [hn.2.1, hn.2.2] at hl
+    simp at hl
+    exact ⟨hn.2.1, hn.2.2, by omega⟩
+  · cases hp : s.parked with
+    | nil => rfl
+    | cons e r =>
+      have hn := q_no_stuck_waiter P hP a b s (reach_of_reachC P _ s hr) hq (by rw [hp]; simp)
+      rw [hn.2.1, hn.2.2] at hl
+      rw [hp] at hlt
+      simp at hl hlt
+      omega
+
 /-- after a close the woken consumers can always run to completion: a woken thread's resume is enabled, and on a
     closed queue it returns (it never parks again) -/
 theorem resume_returns_when_closed (P : Par) (s : CS) (e : Tid × Bool) (he : s.woken.find? (fun x => x.1 == e.1) = some e)
@@ -188,6 +264,13 @@ example :
     (lts ⟨.q, Shape.expected, SyncShape.expected, ⟨.broadcast, .broadcast, .broadcast, .none⟩⟩ (LQ.new .q 0 0)).run
       (CS.init (LQ.new .q 0 0)) [.popCall 1 false, .popCall 2 true, .add 7 0, .resume 2, .resume 1]
       = some ⟨LQ.new .q 0 0, [(1, false)], [], [(2, .val 7)], [7]⟩ := by decide
+
+/-- the hypotheses of `k_items_k_consumers_exact` are satisfiable: two consumers block, two items arrive, everybody
+    resumes — quiescent, open, `accepted.length = parked.length + done.length = 2` -/
+example :
+    (ltsC ⟨.q, Shape.expected, SyncShape.expected, ⟨.broadcast, .broadcast, .broadcast, .none⟩⟩ (LQ.new .q 0 0)).run
+      (CS.init (LQ.new .q 0 0)) [.popCall 1 false, .popCall 2 false, .add 7 0, .add 8 0, .resume 2, .resume 1]
+      = some ⟨LQ.new .q 0 0, [], [], [(1, .val 8), (2, .val 7)], [7, 8]⟩ := by decide
 
 /-- the window between a wake-up and the woken consumer's re-acquisition of the lock is part of the system: two
     consumers parked on the (repaired) SyncQueue, `Push` signals one, `Close` arrives before it resumes, and the
